@@ -81,10 +81,23 @@ def parse(text):
     """-> {name: Func}; the runtime body is kept (the `// MIR FOR CTFE` duplicate of const fns is skipped)"""
     funcs = {}
     parts = re.split(r'(?m)^(?=fn |// MIR FOR CTFE|const |static |alloc\d+ )', text)
+    PROM = re.compile(r'const (.+?::promoted\[\d+\]): (.+?) = \{\n', re.S)
     skip = False
     for p in parts:
         if p.startswith('// MIR FOR CTFE'):
             skip = True
+            continue
+        if p.startswith('const ') and '::promoted[' in p.split('\n', 1)[0]:
+            pm = PROM.match(p)
+            if pm:
+                f = Func(pm.group(1).strip())
+                f.ret = pm.group(2).strip()
+                for lm in re.finditer(r'(?m)^\s+let (?:mut )?(_\d+): (.+);$', p):
+                    f.locals[lm.group(1)] = lm.group(2).strip()
+                for bm in re.finditer(r'(?m)^    (bb\d+)( \(cleanup\))?: \{\n(.*?)^    \}', p, re.S):
+                    f.blocks[bm.group(1)] = [x.strip().rstrip(';') for x in bm.group(3).split('\n') if x.strip()]
+                funcs.setdefault(f.name, f)
+            skip = False
             continue
         if not p.startswith('fn '):
             skip = False
@@ -113,7 +126,7 @@ def parse(text):
             f.debug[dm.group(2).strip()] = dm.group(1)
             f.debug_of.setdefault(dm.group(1), dm.group(2).strip())
         for bm in re.finditer(r'(?m)^    (bb\d+)( \(cleanup\))?: \{\n(.*?)^    \}', p, re.S):
-            lines = [x.strip() for x in bm.group(3).split('\n') if x.strip()]
+            lines = [x.strip() for x in bm.group(3).split('\n') if x.strip() and not x.strip().startswith('//')]
             f.blocks[bm.group(1)] = [l.rstrip(';') for l in lines]
             if bm.group(2):
                 f.cleanup.add(bm.group(1))
